@@ -226,24 +226,25 @@ class C04World:
                                    f"{first_diff(re_, rel_events(back)) or (rd, rel_duration(back))}", key))
         return (ae, ad, re_, rd)
 
-    def _judge_after_alloc_fault(self, S, op, pre, es):
-        """What the book-keeping of the two views owes the caller after an operation died half-way - and no more: the DATA of the
-        view the operation was working on may be half-done (times moved but not yet re-sorted, say), and what a conversion makes
-        of such a list is nobody's promise. Judged: (1) the sequence is not left with both views marked stale; (2) a view that
-        is still marked fresh next to the other fresh view agrees with it as stored. If the stored state is not canonical any
-        more (the full state oracle would object), the run ends here, unjudged and not counted as a foreign failure."""
-        key = {"op": op, "pre": pre, "exc": "MemoryError"}
-        how = type(es).__name__ if es is not None else "returned"
+    def _judge_after_failed_op(self, S, op, pre, es, how, halt):
+        """What the book-keeping of the two views owes the caller after an operation died half-way (it raised by itself, or an
+        allocation inside it failed) - and no more: the DATA of the view the operation was working on may be half-done (times
+        moved but not yet re-sorted, say), and what a conversion makes of such a list is nobody's promise. Judged: (1) the
+        sequence is not left with both views marked stale; (2) two views that are both still marked fresh agree as stored.
+        With `halt`, the history goes on afterwards unless the stored state is not canonical any more (the full state oracle
+        would object); then the run ends there, unjudged and not counted as a foreign failure."""
+        key = {"op": op, "pre": pre, "exc": type(es).__name__ if es is not None else "none"}
         if S._abs_stale and S._rel_stale:
-            raise _V(Violation("EXC-UNREADABLE", f"both views marked stale after {op} from state {pre} (after {op} met a failing "
-                               f"allocation: {how})", key))
+            raise _V(Violation("EXC-UNREADABLE", f"both views marked stale after {op} from state {pre} ({how})", key))
         a, r = observe.raw_abs(S), observe.raw_rel(S)
         if a is not None and r is not None:
             sa = sorted(a, key=lambda m: m.time)
             if (abs_events(sa), abs_duration(sa)) != (rel_events(r), rel_duration(r)):
-                raise _V(Violation("EXC-DIVERGE", f"both views are marked fresh after {op} from state {pre} met a failing allocation "
-                                   f"({how}) but they disagree as stored: "
+                raise _V(Violation("EXC-DIVERGE", f"both views are marked fresh after {op} from state {pre} {how} but they "
+                                   f"disagree as stored: "
                                    f"{first_diff(abs_events(sa), rel_events(r)) or (abs_duration(sa), rel_duration(r))}"[:600], key))
+        if not halt:
+            return
         try:
             self.check_state(S, op, pre, " (after a failing allocation)")
         except _V:
@@ -318,10 +319,28 @@ class C04World:
         pre_fn = seqops.PRECOND.get(op)
         if pre_fn is not None and not pre_fn(S, args):
             return "skip:precondition"
+        # merge / concatenate may take ANOTHER SUBJECT of the run as argument ({"slot": k}): the argument stays alive, is
+        # operated on later and is re-checked - sharing that such a call leaves between receiver and argument shows as soon as
+        # one of them is changed in place. The twin gets a clone of the argument.
+        live = None
+        args_t = None
+        if op in ("merge", "concatenate") and any(isinstance(x, dict) and "slot" in x for x in args.get("args", [])):
+            other = self.slots[(ev.get("slot", 0) + 1) % len(self.slots)]
+            if len(self.slots) < 2 or other is slot or other.it is not None:
+                return "skip:no-live-argument"
+            live = other
+            args_t = dict(args, args=[{"_live": clone_seq(other.seq)} if isinstance(x, dict) and "slot" in x else x
+                                      for x in args["args"]])
+            args = dict(args, args=[{"_live": other.seq} if isinstance(x, dict) and "slot" in x else x for x in args["args"]])
+            self.stats[f"reach_ref/{op}_with_the_other_subject_as_argument"] += 1
         T = clone_seq(S)  # clean twin: only the fresh views, deep-copied, no stale leftovers
         P = clone_seq(S)  # pre-state, for the cross-freshness-state variants (oracle D2)
         key = {"op": op, "pre": pre}
         inject = ev.get("inject")
+        if live is not None:
+            # a merge that dies after adopting the argument's messages and before rebuilding the receiver from copies leaves
+            # the two subjects sharing them - a half-done effect nothing promises to undo, so the two fault kinds are not combined
+            inject = None
         if inject and kind in (MUT, DIRECT):
             with AllocFault(inject) as af:
                 rs, es = _call(applier, S, args)
@@ -332,24 +351,23 @@ class C04World:
                 self.stats["fault/alloc_failure_inside_operation"] += 1
                 self.stats[f"reach_alloc/{op}|{'raised' if es is not None else 'swallowed'}"] += 1
                 self.perturbations += 1
-                self._judge_after_alloc_fault(S, op, pre, es)
+                self._judge_after_failed_op(S, op, pre, es, "met a failing allocation: " + (type(es).__name__ if es is not None
+                                                                                               else "returned"), halt=True)
                 return "ok:alloc-fault"
             self.stats["fault_not_fired/alloc"] += 1
         else:
             rs, es = _call(applier, S, args)
-        rt, et = _call(applier, T, _clean_args(args))
+        rt, et = _call(applier, T, _clean_args(args) if args_t is None else args_t)
+        if live is not None:
+            # being an argument changes nothing for the argument (its views may be regenerated, its value may not)
+            self.check_state(live.seq, op, pre, " (the subject that was passed as argument)")
         if es is not None or et is not None:
             if es is not None and et is not None and type(es) is type(et):
                 if op == "copy":
                     raise _V(Violation("UNREADABLE", f"copy() raised {type(es).__name__}: {es} from state {pre}", key))
                 # The refusal itself is foreign (it belongs to another property), but a public operation that raises must
                 # not leave the sequence unreadable or its two views describing different music: the history goes on.
-                try:
-                    self.check_state(S, op, pre, f" (after {op} raised {type(es).__name__})")
-                except _V as v:
-                    v.v.cls = "EXC-" + v.v.cls
-                    v.v.key = dict(v.v.key, exc=type(es).__name__)
-                    raise
+                self._judge_after_failed_op(S, op, pre, es, f"raised {type(es).__name__}", halt=False)
                 raise Foreign(f"{op}:{type(es).__name__}")
             who = "subject" if es is not None else "clean twin"
             raise _V(Violation("STATE-DEPENDENT",
@@ -377,7 +395,8 @@ class C04World:
         if state_s != state_t:
             raise _V(Violation("STATE-DEPENDENT", f"{op} from state {pre}: effect differs from clean twin: "
                                f"{first_diff(list(state_s), list(state_t))}"[:600], key))
-        self._cross_state(P, op, applier, args, pre, cs, state_s)
+        if live is None:
+            self._cross_state(P, op, applier, args, pre, cs, state_s)
         # adoption of returned sequences as new subjects
         adopt = ev.get("adopt")
         if adopt is not None and len(self.slots) < MAX_SLOTS:
@@ -935,6 +954,11 @@ def _gen_event(rng, world, knobs):
         return ev
     op = seqops.weighted_choice(rng, seqops.MUTATORS, knobs["muts"])
     ev = {"op": op, "slot": si, "args": OPS[op][1](rng, S)}
+    if op == "merge" and nslots >= 2 and rng.random() < 0.4:
+        # "the other subject", whichever it is. Not for concatenate: it adopts the argument's Message objects by design (the
+        # repository's own test_concatenate asserts their identity), so a later operation on the argument legitimately shows
+        # in the receiver - multi-object sharing that neither C04 nor C16 speaks about (DESIGN 12.8)
+        ev["args"] = {"args": [{"slot": 1}]}
     if knobs.get("p_alloc") and rng.random() < knobs["p_alloc"]:
         ev["inject"] = rng.choice([1, 1, 2, 3, 5, 8, rng.randrange(1, 40)])
     return ev
@@ -1109,6 +1133,8 @@ def _simplify_seq_trace(trace):
                 t["events"] = evs[:j] + [dict(ev, args=dict(a, args=a["args"][:k] + a["args"][k + 1:]))] + evs[j + 1:]
                 yield t
             for k, sub in enumerate(a["args"]):
+                if "spec" not in sub:
+                    continue
                 for s in music.simplify_spec(sub["spec"]):
                     na = a["args"][:k] + [dict(sub, spec=s)] + a["args"][k + 1:]
                     t = dict(trace)
